@@ -54,6 +54,7 @@ TRIAGE = {
 
 SETANN = re.compile(r"^(set|frozenset|Set|FrozenSet|AbstractSet|MutableSet)\b")
 DICT_OF_SET = re.compile(r"^(dict|defaultdict|Dict|DefaultDict)\[[^,]+,\s*(set|frozenset)\b")
+INJECTIVE_KEYS = {"repr", "None"}  # sort keys that tell any two distinct assertable / hashable elements apart
 INSENSITIVE_CALLS = {"sorted", "len", "any", "all", "sum", "min", "max", "set", "frozenset", "bool", "isinstance", "Counter"}
 HASHED_SET_FUNCTIONS = {"nx.ancestors", "nx.descendants", "networkx.ancestors", "networkx.descendants"}  # third-party functions returning a plain set
 SET_METHODS = {"union", "intersection", "difference", "symmetric_difference", "copy"}
@@ -200,6 +201,9 @@ def find_sites(repo):
                         if isinstance(p, ast.Call) and isinstance(p.func, ast.Attribute) and p.func.attr in ("update", "difference_update", "intersection_update", "issubset", "issuperset", "union"):
                             continue
                         it, kind = g.iter, type(n).__name__
+            elif isinstance(n, ast.Call) and norm(n.func) == "sorted" and n.args and typing.is_set(n.args[0], sets, dos) and any(k.arg == "key" and norm(k.value) not in INJECTIVE_KEYS for k in n.keywords):
+                # sorted() is stable: elements the key does not tell apart stay in the set's iteration order
+                it, kind = n.args[0], "sorted(key=" + norm(next(k.value for k in n.keywords if k.arg == "key"))[:30] + ")"
             elif isinstance(n, ast.Call) and norm(n.func) in ("list", "tuple", "OrderedSet", "FrozenOrderedSet", "next", "iter", "enumerate", "zip", "deque", "dict.fromkeys") and n.args and typing.is_set(n.args[0], sets, dos):
                 p = parent(n)
                 if isinstance(p, ast.Call) and norm(p.func) in INSENSITIVE_CALLS:
